@@ -20,7 +20,7 @@ def hx(b):
 
 
 # ---------------------------------------------------------------------------------- addresses
-IFACES = ["lo", "eth0", "br-lan", "wlan0", "eth0.100", "abcdefghijklmno"]
+IFACES = ["lo", "eth0", "br-lan", "wlan0", "eth0.100", "abcdefghijklmno", "eth0:1"]
 BAD_IFACES = ["nope0", "abcdefghijklmnop", "eth0/1", "", "99", "0"]
 
 
@@ -239,7 +239,7 @@ def junk_line(rng, cls):
     if cls == "nameserver-tokens":
         return "nameserver " + rng.choice(["junk", "none", "localhost", "ns1.example.com", "# 6.6.6.6", "%eth0", "/24", "-1", "x6.6.6.6", "junk1 junk2,junk3", "\"6.6.6.6\"", "*", "g::1"])
     if cls == "sortlist-token":
-        return "sortlist " + rng.choice(["junk", "junk 10.0.0.0/8", "/8 10.0.0.0/8", "x1.2.3.4", "net/8", "*"])
+        return "sortlist " + rng.choice(["junk", "junk 10.0.0.0/8", "/8 10.0.0.0/8", "x1.2.3.4", "net/8", "*", ";", "; ;", ";;;"])
     if cls == "options-plain":
         return "options " + " ".join(rng.choice(["edns0", "trust-ad", "single-request", "no-aaaa", "inet6", "debug", "Rotate", "ROTATE", "use_vc", "ndot"]) for _ in range(rng.randint(1, 3)))
     if cls == "options-numeric":
